@@ -32,3 +32,29 @@ func FNV128a(b []byte) [16]byte          { return [16]byte{} }
 func Yield()                             {}
 func Logf(format string, a ...interface{}) {
 }
+
+const (
+	KOther = iota
+	KBool
+	KInt
+	KUint
+	KString
+	KBytes
+)
+
+func KindOf(v interface{}) int      { return 0 }
+func IntOf(v interface{}) int64     { return 0 }
+func UintOf(v interface{}) uint64   { return 0 }
+func StrOf(v interface{}) string    { return "" }
+func BytesOf(v interface{}) []byte  { return nil }
+func BoolOf(v interface{}) bool     { return false }
+func IsNilPtr(v interface{}) bool   { return false }
+
+// Fork-free boolean and conditional combinators (plain && / || / if fork the
+// symbolic execution; these build one term).
+func And(a, b bool) bool            { return a && b }
+func Or(a, b bool) bool             { return a || b }
+func Implies(a, b bool) bool        { return !a || b }
+func Ite(c bool, a, b int) int      { return a }
+func IteByte(c bool, a, b byte) byte { return a }
+func StrEq(a, b string) bool        { return a == b }
